@@ -39,6 +39,7 @@ def jobs(tier):
 CALLS = [  # (builtin, signature 1=(int) 2=(int int) 3=(string int), bool result, abs-like precondition)
     ('char_at', 3, 0, 0), ('is_digit', 1, 1, 0), ('is_alpha', 1, 1, 0), ('is_alnum', 1, 1, 0), ('is_whitespace', 1, 1, 0), ('is_upper', 1, 1, 0), ('is_lower', 1, 1, 0),
     ('digit_value', 1, 0, 0), ('char_to_lower', 1, 0, 0), ('char_to_upper', 1, 0, 0), ('abs', 1, 0, 1), ('min', 2, 0, 0), ('max', 2, 0, 0),
+    ('str_equals', 4, 1, 0), ('str_length', 5, 0, 0),      # str_contains: both sides call strstr, for which CBMC has no model
 ]
 
 def call_jobs(tier):
@@ -51,13 +52,13 @@ def call_jobs(tier):
     if 'genc' not in r:
         return out, tools
     for nm, sig, rbool, abslike in CALLS:
-        for sl in ((3,) if (tier == 'quick' or sig != 3) else (1, 3, 6)):
-            j = Job(name='c03_evalcall_%s%s' % (nm, '_len%d' % sl if sig == 3 else ''), harness='eval_calls.c', sources=['src/eval/eval_math.c', 'src/eval/eval_string.c'],
+        for sl in ((3,) if (tier == 'quick' or sig not in (3, 4, 5)) else ((1, 3, 6) if sig == 3 else (3, 5))):
+            j = Job(name='c03_evalcall_%s%s' % (nm, '_len%d' % sl if sig in (3, 4, 5) else ''), harness='eval_calls.c', sources=['src/eval/eval_math.c', 'src/eval/eval_string.c'] + (['src/runtime/nl_string.c'] if sig in (4, 5) else []),
                     extra_sources=[os.path.join(VERIF, 'harness', 'genc_ref.c')],
                     src_defines={'SIG': sig, 'RBOOL': rbool, 'ABSLIKE': abslike, 'SL': sl, 'GENC_FILE': '"%s"' % r['genc'], 'REF': 'ref_' + nm}, extra_cflags=['-DCALLNAME="%s"' % nm],
                     includes=[os.path.join(tools, 'src')], unwind=sl + 4, unwindset=['strcmp.0:24'], gen_bodies='keep-libc', flags=['--slice-formula'], overflow=False, timeout=600,
                     replay='custom', must_witness=['evaluated'], group='evaluator_builtin_kernels',
-                    desc={'builtin': nm, 'symbolic': {1: 'the int argument (all 2^64 values)', 2: 'both int arguments', 3: 'string of %d arbitrary non-NUL bytes, index in range' % sl}[sig],
+                    desc={'builtin': nm, 'symbolic': {1: 'the int argument (all 2^64 values)', 2: 'both int arguments', 3: 'string of %d arbitrary non-NUL bytes, index in range' % sl, 4: 'two strings of length 0..%d, arbitrary bytes' % sl, 5: 'string of length 0..%d, arbitrary bytes' % sl}[sig],
                           'reference': 'the helper the real nanoc wrote into generated C for this builtin (harness/genc_ref.c includes the generated file)'})
             j.call = (nm, sig, rbool); j.tools = tools
             out.append(j)
@@ -73,6 +74,8 @@ def call_replay(job, failed, inputs, outdir):
     def lit(v):
         v = sval(v)
         return str(v) if v >= 0 else ('(- 0 %d)' % (-v) if v != -(1 << 63) else '(- (- 0 9223372036854775807) 1)')
+    if sig in (4, 5):
+        return False, 'string-only builtins are not replayed'
     if sig == 3:
         sl = job.src_defines['SL']; idx = sval(inputs.get('in_b', 0))
         bs = [inputs.get('in_sbuf[%d]' % k, 97) & 0xFF for k in range(sl)]
